@@ -462,17 +462,23 @@ def run_sequences(c, cases, stream):
             if (cc[0], int(cc[1])) != (row[1], 1):
                 c.disagree("AliasRelation: canonical name is not its own canonical (+)", case, None, [row, cc])
                 break
-        real = Real(ar, signed, dict(init) if init else None)
         orc = Oracle(uf, signed)
         routs = []
         wops = line["ops"]
         k0 = 0
+        failed = False
         if init:
             # constructor with `other` == update
-            routs.append("ok")
-            bad = orc.check({"o": "update"}, wops[0], "ok")
+            r0 = call(lambda: Real(ar, signed, dict(init)))
+            real, out0 = (r0, "ok") if isinstance(r0, Real) else (Real(ar, signed, None), r0)
+            routs.append(out0)
+            bad = orc.check({"o": "update"}, wops[0], out0)
+            if bad:
+                failed = True
+                c.fail("AliasDict(relation, other): " + bad, case, {"op": wops[0], "got": out0})
             k0 = 1
-        failed = False
+        else:
+            real = Real(ar, signed, None)
         for op, wop in zip(ops, wops[k0:]):
             out = real.do(op)
             routs.append(out)
